@@ -325,3 +325,10 @@ package openapi3
 // can hold a reference wrapper; a field it never reads is a position whose references are never
 // resolved.
 //@ refwalk @C02 (*Loader).ResolveRefsIn : SchemaRef, ParameterRef, HeaderRef, RequestBodyRef, ResponseRef, SecuritySchemeRef, ExampleRef, LinkRef, CallbackRef, MediaType, Encoding, Operation, PathItem, Responses, Paths, Components
+
+// C02: JSON-pointer tokens of a fragment are unescaped as RFC 6901 prescribes: "~1" to "/" first,
+// then "~0" to "~" (so that "~01" denotes "~1").
+//@ func unescapeRefString
+//@   modifies nothing
+//@   ensures [rfc6901-order] result == replaceAll(replaceAll(ref, "~1", "/"), "~0", "~")
+//@   tag C02
